@@ -31,6 +31,7 @@ type C03Op struct {
 	Q    int    `json:"q,omitempty"`
 	O    int    `json:"o,omitempty"`
 	N    int    `json:"n,omitempty"` // grow: how many entries of DB to append
+	Raw  bool   `json:"raw,omitempty"` // update / loadmon / grow: commands built in code, without the loader's lower-cased copies
 }
 
 type C03Case struct {
@@ -70,7 +71,7 @@ func genC03(rt *rapid.T) C03Case {
 	var c C03Case
 	ndb := rapid.IntRange(1, 4).Draw(rt, "ndb")
 	for i := 0; i < ndb; i++ {
-		c.DBs = append(c.DBs, genC03DB(rt, rapid.SampledFrom([]int{0, 3, 12, 30}).Draw(rt, "dbmax")))
+		c.DBs = append(c.DBs, genC03DB(rt, rapid.SampledFrom([]int{0, 3, 12, tierN(30, 80)}).Draw(rt, "dbmax")))
 	}
 	nq := rapid.IntRange(1, 4).Draw(rt, "nq")
 	for i := 0; i < nq; i++ {
@@ -101,9 +102,10 @@ func genC03(rt *rapid.T) C03Case {
 		op.Q = rapid.IntRange(0, len(c.Queries)-1).Draw(rt, "q")
 		op.O = rapid.IntRange(0, len(c.Options)-1).Draw(rt, "o")
 		op.N = rapid.IntRange(1, 4).Draw(rt, "n")
+		op.Raw = rapid.IntRange(0, 2).Draw(rt, "raw") == 0
 		return op
 	})
-	c.Ops = rapid.SliceOfN(opGen, 1, 25).Draw(rt, "ops")
+	c.Ops = rapid.SliceOfN(opGen, 1, tierN(25, 60)).Draw(rt, "ops")
 	return c
 }
 
@@ -210,6 +212,15 @@ func runC03(c C03Case) *Outcome {
 	cur = append([]Cmd(nil), c.DBs[0]...)
 	log = append(log, "load(db0)")
 	var beh []string
+	// rawInList: some command of the current list was handed over without the loader's lower-cased copies;
+	// NLP boosts read those copies, so only the NLP-off comparison with a freshly loaded copy is meaningful then
+	rawInList := false
+	conv := func(cs []Cmd, raw bool) []database.Command {
+		if raw {
+			return cmdsToDB(cs)
+		}
+		return cmdsToDBPopulated(cs)
+	}
 	replaced, grown, merged, checked, longq := 0, 0, 0, 0, 0
 	for i, op := range c.Ops {
 		d := c.DBs[op.DB%len(c.DBs)]
@@ -219,6 +230,7 @@ func runC03(c C03Case) *Outcome {
 				return fail("load", "step %d: load failed: %v", i, err)
 			}
 			cur = append([]Cmd(nil), d...)
+			rawInList = false
 			log = append(log, fmt.Sprintf("load(db%d)", op.DB%len(c.DBs)))
 			beh = append(beh, "l")
 		case "loadpersonal":
@@ -227,20 +239,23 @@ func runC03(c C03Case) *Outcome {
 				return fail("load", "step %d: load with personal failed: %v", i, err)
 			}
 			cur = append(append([]Cmd(nil), d...), p...)
+			rawInList = false
 			merged++
 			log = append(log, fmt.Sprintf("loadpersonal(db%d,db%d)", op.DB%len(c.DBs), op.PDB%len(c.DBs)))
 			beh = append(beh, "p")
 		case "update":
-			mdb.UpdateDatabase(cmdsToDBPopulated(d))
+			mdb.UpdateDatabase(conv(d, op.Raw))
 			cur = append([]Cmd(nil), d...)
+			rawInList = op.Raw && len(d) > 0
 			replaced++
-			log = append(log, fmt.Sprintf("update(db%d)", op.DB%len(c.DBs)))
+			log = append(log, fmt.Sprintf("update(db%d,raw=%v)", op.DB%len(c.DBs), op.Raw))
 			beh = append(beh, "u")
 		case "loadmon":
-			_ = mdb.LoadDatabaseWithMonitoring(cmdsToDBPopulated(d))
+			_ = mdb.LoadDatabaseWithMonitoring(conv(d, op.Raw))
 			cur = append([]Cmd(nil), d...)
+			rawInList = op.Raw && len(d) > 0
 			replaced++
-			log = append(log, fmt.Sprintf("loadmon(db%d)", op.DB%len(c.DBs)))
+			log = append(log, fmt.Sprintf("loadmon(db%d,raw=%v)", op.DB%len(c.DBs), op.Raw))
 			beh = append(beh, "m")
 		case "grow":
 			n := op.N
@@ -250,10 +265,11 @@ func runC03(c C03Case) *Outcome {
 			if n == 0 {
 				continue
 			}
-			db.Commands = append(db.Commands, cmdsToDBPopulated(d[:n])...)
+			db.Commands = append(db.Commands, conv(d[:n], op.Raw)...)
 			cur = append(cur, d[:n]...)
+			rawInList = rawInList || op.Raw
 			grown++
-			log = append(log, fmt.Sprintf("grow(db%d[:%d])", op.DB%len(c.DBs), n))
+			log = append(log, fmt.Sprintf("grow(db%d[:%d],raw=%v)", op.DB%len(c.DBs), n, op.Raw))
 			beh = append(beh, "g")
 		case "search":
 			q := c.Queries[op.Q%len(c.Queries)]
@@ -400,6 +416,9 @@ func runC03(c C03Case) *Outcome {
 				return fail("load", "step %d: loading the current list afresh failed: %v", i, ferr)
 			}
 			for _, nlpOn := range []bool{false, true} {
+				if nlpOn && rawInList {
+					continue
+				}
 				fo := opts
 				fo.UseNLP = nlpOn
 				fo.Limit = 50
